@@ -338,12 +338,13 @@ def _run_op(hist, op, idx, *, tape=None, uberjob_kwargs=None, client_wrap=None, 
         o = RecordingObserver("obs0", yield_in_callbacks=cfg.get("obs_yield", False))
         observers.append(o)
         kwargs["progress"] = uberjob.progress.Progress(lambda: o)
-    elif prog == "rec2":
+    elif prog in ("rec2", "rec2fail"):
         from uberjob.progress import Progress
 
         def mk(tag):
             def create():
-                ob = RecordingObserver(tag, yield_in_callbacks=cfg.get("obs_yield", False))
+                ob = RecordingObserver(tag, yield_in_callbacks=cfg.get("obs_yield", False),
+                                       fail_enter=(prog == "rec2fail" and tag == cfg.get("fail_member", "obs1")))
                 observers.append(ob)
                 return ob
 
@@ -433,6 +434,15 @@ def apply_op(hist, op, idx, **kw):
         hist.disk.delete(op["store"])
     elif k == "advance":
         hist.disk.now += op["seconds"]
+    elif k == "retime":
+        # modified times moved to given instants (as os.utime / touch would do), contents unchanged
+        for name, off in op["offsets"].items():
+            if name in hist.disk.data:
+                v, _ = hist.disk.data[name]
+                hist.disk.data[name] = (v, hist.epoch + off)
+        if hist.disk.data:
+            hist.disk.last = max(hist.disk.last, max(t for _, t in hist.disk.data.values()))
+        hist.disk.now = max(hist.disk.now, hist.disk.last - hist.epoch + 1.0)
     elif k == "fresh":
         # fresh_time := an instant later than every existing modified time and
         # earlier than every later write (pairwise distinct instants)
